@@ -51,6 +51,8 @@ def atoms(M):
         "callkw": [A("u", "<state>y + 2"), A("v", "<func>k(<t>, z=u)"), A(p, "v")],
         "fresh": [A("temp", p + " + 3"), A(p, "temp")],
         "swap": [A("u", p), A("v", "u * 2"), A(p, "v - u + 1")],
+        # per-step variables whose names are substrings of the reserved names <t>, <dt>
+        "t-named": [A("t", "<state>y + 1"), A("dt", "t * 2"), A("d", "dt + t"), A(p, "d + " + p)],
         # non-disjoint / shared writes
         "shared": [A("<p>s", "<p>s + 1")],
         "t+=dt": [A("<t>", "<t> + <dt>")],
@@ -74,6 +76,28 @@ def method(M, names, extra_phase=False):
     if extra_phase:
         phases.append(("rescue_" + M, [A("<p>%s" % M, "0"), A("u", "<p>%s + 1" % M)], "main"))
     return prog.build_dag(phases, "init")
+
+
+PRESENTATIONS = ["as-built", "rev-ids", "rev-order", "rev-ids+rev-order"]
+
+
+def present(dag, how):
+    """the same method written down differently: statement ids permuted (the i-th statement gets the id of the
+    (n-1-i)-th, dependencies follow) and/or the statement list reversed.  Neither changes the method's meaning."""
+    if how == "as-built":
+        return dag
+    from dagrt.language import DAGCode, ExecutionPhase
+    phases = {}
+    for name, ph in dag.phases.items():
+        stmts = list(ph.statements)
+        if "rev-ids" in how:
+            ids = [st.id for st in stmts]
+            ren = {i: ids[len(ids) - 1 - k] for k, i in enumerate(ids)}
+            stmts = [st.copy(id=ren[st.id], depends_on=frozenset(ren[d] for d in st.depends_on)) for st in stmts]
+        if "rev-order" in how:
+            stmts = list(reversed(stmts))
+        phases[name] = ExecutionPhase(name=name, next_phase=ph.next_phase, statements=stmts)
+    return DAGCode(phases, dag.initial_phase)
 
 
 PREDICATES = {
@@ -327,9 +351,9 @@ def project(obs, letter):
     return out
 
 
-def check_pair(na, nb, pred_name, semantic=True):
+def check_pair(na, nb, pred_name, semantic=True, how=("as-built", "as-built")):
     from dagrt.transform import fuse_two_dags
-    dagA, dagB = method("a", na), method("b", nb)
+    dagA, dagB = present(method("a", na), how[0]), present(method("b", nb), how[1])
     try:
         with kernel.time_limit(120):
             if PREDICATES[pred_name] is None:
@@ -430,7 +454,11 @@ def bounds(tier):
     return {"atoms": len(ATOM_NAMES),
             "pairs": "(k<=2 x k<=1) + (k<=1 x k<=2) + (core k<=2 x core k<=2)" if tier == "quick" else
             "(k<=2 x k<=2) + (core k=3 x core k=3)", "core_atoms": len(CORE),
-            "predicates": list(PREDICATES), "inputs": [0, 2], "steps": 3}
+            "predicates": list(PREDICATES), "inputs": [0, 2], "steps": 3,
+            "written_as": "pairs with <= %d atoms in total: A in {as-built, rev-ids+rev-order} x B in %s (ids permuted "
+            "within the phase / statement list reversed); pairs with one atom more: as built and either method "
+            "rev-ids+rev-order (structural check only); larger pairs as built" % (2 if tier == "quick" else 3,
+                                                                                  PRESENTATIONS)}
 
 
 def pairs(tier):
@@ -459,7 +487,20 @@ def shards(tier, seed):
     return [{"part": "mismatch"}] + [{"part": "pairs", "tier": tier, "mod": m, "rem": r} for r in range(m)]
 
 
-def shrink(na, nb, pred_name, sub):
+HOWS = [(a, b) for a in ("as-built", "rev-ids+rev-order") for b in PRESENTATIONS]
+
+
+def hows_for(na, nb, tier):
+    n = len(na) + len(nb)
+    small = 2 if tier == "quick" else 3
+    if n <= small:
+        return HOWS
+    if n == small + 1:
+        return [HOWS[0], ("as-built", "rev-ids+rev-order"), ("rev-ids+rev-order", "as-built")]
+    return HOWS[:1]
+
+
+def shrink(na, nb, pred_name, sub, how=HOWS[0]):
     na, nb = list(na), list(nb)
     changed = True
     while changed:
@@ -470,7 +511,7 @@ def shrink(na, nb, pred_name, sub):
                 if len(cur) == 1:
                     break
                 c = cur[:i] + cur[i + 1:]
-                r, _ = check_pair(c if which == 0 else na, nb if which == 0 else c, pred_name)
+                r, _ = check_pair(c if which == 0 else na, nb if which == 0 else c, pred_name, how=how)
                 if r is not None and r[0] == sub:
                     if which == 0:
                         na = c
@@ -495,23 +536,32 @@ def run_shard(desc, acc):
         if acc.out_of_time():
             acc.cap("time cap in shard %r" % desc)
             return
-        for pred_name in PREDICATES:
+        for pred_name, how in itertools.product(PREDICATES, hows_for(na, nb, desc["tier"])):
             acc.evaluations += 1
-            r, key = check_pair(na, nb, pred_name)
+            r, key = check_pair(na, nb, pred_name, how=how,
+                                semantic=(how == HOWS[0] or len(na) + len(nb) <= 2))
             if r is not None:
                 sub = r[0]
+                if how != HOWS[0] and check_pair(na, nb, pred_name)[0] is not None:
+                    acc.count_violation(sub)      # fails as built as well: reported there
+                    continue
                 if acc.want_violation(sub):
-                    sa, sb = shrink(na, nb, pred_name, sub)
-                    r2, _ = check_pair(sa, sb, pred_name)
-                    acc.violation(sub, "C16/%s:A=[%s] B=[%s] predicate=%s" % (sub, ", ".join(sa), ", ".join(sb), pred_name),
-                                  {"A": list(sa), "B": list(sb), "predicate": pred_name}, (r2 or r)[1])
+                    sa, sb = shrink(na, nb, pred_name, sub, how)
+                    r2, _ = check_pair(sa, sb, pred_name, how=how)
+                    acc.violation(sub, sig_of(sub, sa, sb, pred_name, how),
+                                  {"A": list(sa), "B": list(sb), "predicate": pred_name, "how": list(how)}, (r2 or r)[1])
                 else:
                     acc.count_violation(sub)
                 continue
             acc.nontrivial += 1
             acc.outcome("%s|%s|%s" % (na, nb, pred_name))
-            if i % 3000 == 0 and pred_name == "absent":
+            if i % 3000 == 0 and pred_name == "absent" and how == HOWS[0]:
                 acc.sample({"A_main": list(na), "B_main": list(nb), "predicate": pred_name})
+
+
+def sig_of(sub, sa, sb, pred_name, how):
+    tail = "" if tuple(how) == HOWS[0] else " written=%s/%s" % tuple(how)
+    return "C16/%s:A=[%s] B=[%s] predicate=%s%s" % (sub, ", ".join(sa), ", ".join(sb), pred_name, tail)
 
 
 def replay(witness):
@@ -519,10 +569,11 @@ def replay(witness):
         return [{"sub": s, "sig": g, "witness": w, "detail": d} for s, g, w, d in check_mismatch() + check_phase_sets()
                 if w == witness]
     na, nb, pn = witness["A"], witness["B"], witness["predicate"]
-    r, _ = check_pair(na, nb, pn)
+    how = tuple(witness.get("how", HOWS[0]))
+    r, _ = check_pair(na, nb, pn, how=how)
     if r is None:
         return []
-    sa, sb = shrink(na, nb, pn, r[0])
-    r2, _ = check_pair(sa, sb, pn)
-    return [{"sub": r[0], "sig": "C16/%s:A=[%s] B=[%s] predicate=%s" % (r[0], ", ".join(sa), ", ".join(sb), pn),
-             "witness": {"A": list(sa), "B": list(sb), "predicate": pn}, "detail": (r2 or r)[1]}]
+    sa, sb = shrink(na, nb, pn, r[0], how)
+    r2, _ = check_pair(sa, sb, pn, how=how)
+    return [{"sub": r[0], "sig": sig_of(r[0], sa, sb, pn, how),
+             "witness": {"A": list(sa), "B": list(sb), "predicate": pn, "how": list(how)}, "detail": (r2 or r)[1]}]
